@@ -244,17 +244,18 @@ def rot_case(draw):
     dims = draw(gen.extra_dims(maxdims=1, maxsize=3))
     npos = int(np.prod([n for _, n in dims])) if dims else 1
     specs = [draw(gen.spectrum(kinds=("multinoisy", "multi", "sparse", "zero"))) for _ in range(min(npos, 3))]
-    return dict(fg=fg, dg=dg, dims=dims, specs=specs, dtype=draw(st.sampled_from(["float64", "float32"])), lived=draw(gen.lived()), cdtype=draw(st.sampled_from(["f64", "f64", "int-dir"])),
+    return dict(fg=fg, dg=dg, dims=dims, specs=specs, dtype=draw(st.sampled_from(["float64", "float32"])), lived=draw(gen.lived()), cdtype=draw(st.sampled_from(["f64", "f64", "int-dir"])), dup=draw(st.integers(0, 3)) == 0,
                 kind=draw(st.sampled_from(["bin", "bin", "360", "any", "any"])), k=draw(st.integers(-20, 20)), a=draw(st.floats(-720, 720)))
 
 
 def check_rotate(case, ctx):
     from .c01 import _positions
 
-    da = gen.build_dataarray(case["fg"], case["dg"], case["specs"], case["dims"], dtype=case["dtype"], lived=case.get("lived"), cdtype=case.get("cdtype"))
-    f, d = np.array(case["fg"]["f"]), np.array(case["dg"]["d"])
-    ctx.label("dir-labels=" + str(da.dir.dtype))
-    n = len(d)
+    # the duplicated bin of the statement is the 0 / 360 pair: only grids whose lowest label is exactly 0 get one here
+    da, dup = _source(case if min(case["dg"]["d"]) == 0.0 else dict(case, dup=False))
+    f, d = np.array(case["fg"]["f"]), np.asarray(da.dir.values, dtype=float)
+    ctx.label("dir-labels=" + str(da.dir.dtype), "dup0/360" if dup else "nodup")
+    n = case["dg"]["n"]
     dd = 360.0 / n
     a = {"bin": case["k"] * dd, "360": 360.0 * (1 if case["k"] >= 0 else -1), "any": case["a"]}[case["kind"]]
     with ctx.lib("spec.rotate(%r)" % a):
@@ -270,8 +271,9 @@ def check_rotate(case, ctx):
         hin, hout = R.Spec(E, f, d).hs(), R.Spec(O, f, d).hs()
         if abs(hin - hout) > 4 * rt * max(hin, 1e-300):
             raise Violation("hs", "Hs %r before, %r after rotate(%r)" % (hin, hout, a))
-        if case["kind"] in ("bin", "360"):
-            # E_rot(theta) = E(theta - a): exact relabelling for whole bins
+        if case["kind"] in ("bin", "360") and not (dup and case["kind"] == "bin"):
+            # E_rot(theta) = E(theta - a): exact relabelling for whole bins (with a duplicated 0/360 bin only the
+            # every-angle invariants and the 360-degree identity are judged)
             k = case["k"] if case["kind"] == "bin" else 0
             asc = np.argsort(d)
             Ea = E[:, asc]
